@@ -75,6 +75,8 @@ type Config struct {
 	ParamInit map[int]*Term
 	// InitFacts may preload facts (assumptions about ParamInit terms).
 	InitFacts func(e *Engine, f *Facts)
+	// IndexEvents makes every slice indexing an "index" event (Decided = provably in bounds).
+	IndexEvents bool
 	// MemInit preloads memory (address term -> content), e.g. the cells a root closure captured.
 	MemInit map[*Term]*Term
 	// DropReturnStates: do not retain the final state of every return (the monitors saw it); saves memory on big explorations.
